@@ -404,6 +404,31 @@ func runC09(c *Ctx) {
 			c.undecided("C09.link-guard", u.fn, "listUnlink("+core.Describe(arg)+")", u.call, "cannot tell whether the node is linked")
 		}
 	}
+	// the anchor a node is appended after must still be linked: no listUnlink
+	// may run between the listFirst/listLast call that produced the anchor and
+	// the listAppend that uses it (the unlinked node could be that anchor)
+	c.L.Floor("C09.list.fresh-anchor", 2)
+	for _, fn := range ci.fns {
+		if ci.helper[fn] {
+			continue
+		}
+		for _, ci2 := range core.CallsTo(fn, core.ModPath+"/cache.listAppend") {
+			ap := ci2.(*ssa.Call)
+			anchor, isCall := ap.Call.Args[1].(*ssa.Call)
+			if !isCall || !(isListEndOf(anchor, "listLast") || isListEndOf(anchor, "listFirst")) {
+				c.undecided("C09.list.fresh-anchor", fn, "anchor of listAppend", ap, "the anchor is not the result of listFirst/listLast(&c.usage)")
+				continue
+			}
+			stale := ""
+			for _, u := range unlinks {
+				if u.fn == fn && core.MayFollow(anchor, u.call) && core.MayFollow(u.call, ap) && !core.Reaches(ap.Block(), anchor.Block()) {
+					stale = c.ipos(u.call)
+				}
+			}
+			c.check(stale == "", "C09.list.fresh-anchor", fn, "listAppend anchor is read after every unlink that precedes the append", ap,
+				"a node unlinked at "+stale+" between reading the anchor and appending may be the anchor itself; the new item would hang off a node that is no longer in the list and never be evicted")
+		}
+	}
 	if get != nil {
 		// Get: unlink+append pair on the same item, both under ok && EnableLRU
 		for _, u := range unlinks {
@@ -522,6 +547,43 @@ func runC09(c *Ctx) {
 		})
 		for _, f := range []string{"items", "size", "usage"} {
 			c.check(resets[f], "C09.accounting.clear", clr, "Clear resets c."+f, nil, "Clear must reset the map, the list and the size together (reset completeness over the guarded fields)")
+		}
+		// ... on every path: an early return is only sound when the map itself is empty
+		isReset := func(in ssa.Instruction) bool {
+			if x, ok := in.(*ssa.Store); ok {
+				if f, _, ok := cacheField(x.Addr); ok && f == "items" {
+					_, isMk := x.Val.(*ssa.MakeMap)
+					return isMk
+				}
+			}
+			if x, ok := in.(*ssa.Call); ok {
+				if b, isB := x.Call.Value.(*ssa.Builtin); isB && b.Name() == "clear" {
+					if f, _, ok := loadedCacheField(x.Call.Args[0]); ok && f == "items" {
+						return true
+					}
+				}
+			}
+			return false
+		}
+		for _, ret := range core.Returns(clr) {
+			mn, _, ok := core.CountOnPaths(clr, nil, ret, isReset)
+			okPath := ok && mn >= 1
+			if ok && mn == 0 {
+				for _, g := range core.GuardsOf(ret) {
+					cond, truth := core.StripNot(g.Cond, g.Truth)
+					if b, isB := cond.(*ssa.BinOp); isB && b.Op == token.EQL && truth {
+						if lc, isC := b.X.(*ssa.Call); isC && core.CalleeName(&lc.Call) == "builtin.len" {
+							if f, _, ok := loadedCacheField(lc.Call.Args[0]); ok && f == "items" {
+								if k, isK := core.ConstInt(b.Y); isK && k == 0 {
+									okPath = true
+								}
+							}
+						}
+					}
+				}
+			}
+			c.check(okPath, "C09.accounting.clear", clr, "the map is emptied on every path through Clear", ret,
+				"an exit that skips the reset leaves entries alive (size 0 does not mean empty: an entry with empty key and value has size 0)")
 		}
 	}
 
